@@ -15,8 +15,13 @@ MODEL_TARGETS = M.MODEL_TARGETS
 SHARD = 60
 STYPES = ["numerical", "categorical", "multicategorical", "sequence_numerical", "timestamp", "embedding"]
 RULE = ("DataFrames of 1-10 rows with 1-7 columns drawn from six stypes (+ numerical/categorical target), "
-        "missing patterns, both pandas string dtypes, separators/time formats, five index labelings; distinct = "
-        "distinct (stype multiset, dtypes, n, missing pattern signature); non-trivial = at least one non-missing cell")
+        "missing patterns, both pandas string dtypes (object, str), separators/time formats, five index labelings, "
+        "list-valued multicategorical cells with string or integer tokens (low rate: including the integer -1, the "
+        "known finding); distinct = distinct (stype multiset, dtypes, n, missing pattern signature); non-trivial = "
+        "at least one non-missing cell.  Outside the quantifier and only exercised by the malformed stream (the "
+        "implementation raises, nothing is demanded): a multicategorical column held as all-NaN float64 (the "
+        "mapper's dtype gate), a missing cell in an EMBEDDING column (embedding cells are 'the given vector'), cells "
+        "that do not fit the separator configuration, vectors of different widths")
 TRUSTED = [
     "Coq 8.16.1 kernel + vm_compute",
     "hand-written model coq/Model/Mapper.v of the TensorMapper pipelines (categorical merge, multicategorical "
@@ -32,7 +37,15 @@ TRUSTED = [
     "harness/dfgen.py independent cell-by-cell encoder",
 ]
 ASSUMPTIONS = ["float payloads are dyadic rationals so float32/float64 casts are exact",
-               "date recognition/parsing is pandas'; the generator emits explicit formats or datetime64"]
+               "date recognition/parsing is pandas' (pd.to_datetime is a per-column black box whose result enters the "
+               "model cell by cell); the generator emits explicit formats or datetime64, one layout per column",
+               "the category lists are the implementation's own COUNT / MULTI_COUNT statistics (inputs of the model; "
+               "their definition is C03)",
+               "an all-NaN float64 multicategorical column and a missing embedding cell raise at materialize and are "
+               "outside the quantifier (string columns are object/str; embedding cells are the given vector)",
+               "known finding multicat-int-token-minus-one-aliases-missing: the integer token -1 in a list-valued "
+               "multicategorical cell collides with the library's missing marker (Props/C01.v "
+               "multicategorical_minus_one_refuted)"]
 
 
 WS_VARIANTS = ["\u00a0", "\u2003", "\n", "\x1f", "\u3000"]
@@ -43,6 +56,14 @@ def vary(case, rng):
     """Configurations beyond dfgen's defaults: multi-character separators and
     non-ASCII / control whitespace around the tokens (str.strip's full set)."""
     for col in case["cols"]:
+        if col["stype"] == "multicategorical" and col["sep"] is None and rng.chance(0.35):
+            # list-valued cells with INTEGER tokens; at low rate the pool contains -1 (known finding)
+            ints = rng.sample([0, 1, 2, 3, 7, 12, -2, -5], len(G.TOKENS))
+            if rng.chance(0.2):
+                ints[rng.randrange(len(ints))] = -1
+            m = dict(zip(G.TOKENS, ints))
+            col["cells"] = [c if c is None else [m[t] for t in c] for c in col["cells"]]
+            col["int_tokens"] = True
         if col["stype"] != "multicategorical" or col["sep"] is None:
             continue
         if rng.chance(0.3):
@@ -107,12 +128,19 @@ def gen_malformed(rng):
     (string cells without a separator, list cells with one, vectors of different widths).  Nothing is
     demanded of the implementation here (the oracle is silent); the correspondence checks that the model
     predicts the raise (theorems multicategorical_ill_typed_raises / np.stack)."""
-    kind = rng.pick(["str-without-sep", "list-with-sep", "ragged-embedding"])
+    kind = rng.pick(["str-without-sep", "list-with-sep", "ragged-embedding", "float64-all-nan-multicat",
+                     "missing-embedding-cell"])
     n = rng.randint(2, 4)
     good = G.gen_col(rng, "alpha", "numerical", n, 0.2)
     if kind == "ragged-embedding":
         bad = {"name": "beta", "stype": "embedding", "dtype": "object", "sep": None, "fmt": None, "width": 2,
                "cells": [[1.0, 2.0]] + [[0.5] * rng.pick([1, 3]) for _ in range(n - 1)]}
+    elif kind == "missing-embedding-cell":
+        bad = {"name": "beta", "stype": "embedding", "dtype": "object", "sep": None, "fmt": None, "width": 2,
+               "cells": [[1.0, 2.0]] + [None] + [[0.5, 0.25] for _ in range(n - 2)]}
+    elif kind == "float64-all-nan-multicat":
+        bad = {"name": "beta", "stype": "multicategorical", "dtype": "float64", "fmt": None, "width": None,
+               "nan_kind": "nan", "sep": rng.pick([None, ","]), "cells": [None] * n}
     else:
         bad = {"name": "beta", "stype": "multicategorical", "dtype": "object", "fmt": None, "width": None,
                "nan_kind": "none", "sep": None if kind == "str-without-sep" else "|",
@@ -122,7 +150,7 @@ def gen_malformed(rng):
 
 
 def generate(rng, tier):
-    n = 500 if tier == "quick" else 6000
+    n = 420 if tier == "quick" else 6000
     cases = [vary(G.gen_frame(rng, stypes=STYPES), rng) for _ in range(n)]
     cases += [gen_malformed(rng) for _ in range(n // 40)]
     cases += [gen_calendar(rng) for _ in range(25 if tier == "quick" else 400)]
@@ -140,6 +168,25 @@ def run_calendar(case):
     return {"ok": True, "rows": TimestampTensorMapper.to_tensor(ser).tolist()}
 
 
+def malformed_df(case):
+    """frames dfgen cannot build: a float64 all-NaN multicategorical column, a None cell in an embedding column"""
+    import numpy as np
+    import pandas as pd
+    if case["malformed"] not in ("float64-all-nan-multicat", "missing-embedding-cell"):
+        return None
+    good, bad = case["cols"]
+    data = {good["name"]: G.build_series(good)}
+    if case["malformed"] == "float64-all-nan-multicat":
+        data[bad["name"]] = pd.Series([np.nan] * case["n"], dtype="float64")
+    else:
+        data[bad["name"]] = pd.Series([None if c is None else list(c) for c in bad["cells"]], dtype=object)
+    df = pd.DataFrame(data)
+    labels = G.index_labels(case["index"], case["n"])
+    if labels is not None:
+        df.index = labels
+    return df
+
+
 def run(case):
     if case.get("kind") == "calendar":
         try:
@@ -147,13 +194,24 @@ def run(case):
         except Exception as ex:
             return {"ok": False, "exc": C.exc_name(ex), "msg": str(ex)[:300], "tb": C.fmt_exc()}
     try:
-        ds, _ = G.build_dataset(case)
+        df = malformed_df(case) if case.get("malformed") else None
+        ds, _ = G.build_dataset(case, df=df)
         # the black box of the timestamp pipeline, recorded for the correspondence
         parsed = {c["name"]: M.parse_timestamps(ds.df, c) for c in case["cols"] if c["stype"] == "timestamp"}
         ds.materialize()
     except Exception as ex:
         return {"ok": False, "exc": C.exc_name(ex), "msg": str(ex)[:300], "tb": C.fmt_exc()}
     return {"ok": True, "tf": G.read_tf(ds.tensor_frame), "stats": G.read_stats(ds.col_stats), "parsed": parsed}
+
+
+KNOWN_MINUS_ONE = "multicat-int-token-minus-one-aliases-missing"
+
+
+def minus_one_situation(col):
+    """exactly the known finding: a list-valued multicategorical column one of whose cells contains the INTEGER -1"""
+    return (col["stype"] == "multicategorical" and col["sep"] is None and
+            any(isinstance(c, list) and any(isinstance(t, int) and not isinstance(t, bool) and t == -1 for t in c)
+                for c in col["cells"]))
 
 
 def locate(tfj, col):
@@ -198,6 +256,11 @@ def oracle(case, obs):
             exp = G.expected_cell(col, cell, stats)
             got = G.canon_sorted(feat[i][j], col["stype"])
             if got != exp:
+                if minus_one_situation(col):
+                    return dict(key=KNOWN_MINUS_ONE,
+                                what=f"list-valued multicategorical column {col['name']} holds the integer token -1, the "
+                                     f"library's missing marker: row {i} raw {cell!r} encoded as {got}, canonical {exp}",
+                                col=col["name"], row=i, stats=stats)
                 return dict(key=f"cell:{col['stype']}",
                             what=f"cell (row {i}, column {col['name']}, {col['stype']}, dtype {col['dtype']}) raw "
                                  f"{cell!r} encoded as {got}, canonical encoding is {exp}",
@@ -267,6 +330,12 @@ def stats(cases, obss):
         if not o.get("ok"):
             d["raised"] += 1
         for col in c["cols"]:
+            if col.get("int_tokens"):
+                d["int_token_columns"] = d.get("int_token_columns", 0) + 1
+                d["minus_one_columns"] = d.get("minus_one_columns", 0) + (1 if minus_one_situation(col) else 0)
+            if col["stype"] == "multicategorical":
+                k = "multicat_sep" if col["sep"] is not None else "multicat_list"
+                d[k] = d.get(k, 0) + 1
             d["stypes"][col["stype"]] = d["stypes"].get(col["stype"], 0) + 1
             d["dtypes"][col["dtype"]] = d["dtypes"].get(col["dtype"], 0) + 1
             d["cells"] += len(col["cells"])
@@ -287,14 +356,16 @@ def coq_term(case, obs):
     compared with the cells the implementation produced."""
     if case.get("malformed") and not obs.get("ok"):
         bad = case["cols"][1]
-        return f"col_raises {M.labels_of(case)} ({M.rawcol(bad, {'MULTI_COUNT': [[], []]})})"
+        if case["malformed"] == "missing-embedding-cell":
+            return None     # not expressible in the model: an embedding cell is a vector by type
+        return f"col_raises pval_eqb {M.labels_of(case)} ({M.rawcol(bad, {'MULTI_COUNT': [[], []]})})"
     if case.get("malformed") or not obs.get("ok"):
         return None     # an implementation that tolerates a malformed column is not compared (outside the property)
     if case.get("kind") == "calendar":
         secs = [M.epoch_seconds(c) for c in case["cells"]]
         idx = M.plist(range(len(secs)), lambda i: "tt")
         rows = M.plist(obs["rows"], lambda r: M.pecell(r, True))
-        return f"check_col {idx} (RTime {M.plist(secs, lambda s: M.popt(s, M.zs))}) {rows}"
+        return f"check_col unit_eqb {idx} (RTime {M.plist(secs, lambda s: M.popt(s, M.zs))}) {rows}"
     tfj = obs["tf"]
     parts = []
     for col in case["cols"]:
@@ -311,5 +382,38 @@ def coq_term(case, obs):
             if loc is None:
                 return "false"
             cells = column_cells(tfj, loc, st, case["n"])
-        parts.append(f"check_col idx ({raw}) {M.plist(cells, lambda c: M.pecell(c, is_int))}")
+        obs_cells = M.plist(cells, lambda c: M.pecell(c, is_int))
+        if minus_one_situation(col):
+            # known finding: the faithful pipeline reproduces the implementation, and both differ from the spec
+            parts.append(f"(check_pipeline pval_eqb idx ({raw}) {obs_cells} && spec_differs ({raw}) {obs_cells})")
+        else:
+            parts.append(f"check_col pval_eqb idx ({raw}) {obs_cells}")
     return f"(let idx := {M.labels_of(case)} in " + " && ".join(parts) + ")"
+
+
+def sanity(cases, obss):
+    """Fail-closed distribution check: every stype, labeling, dtype and multicategorical cell kind must be drawn,
+    the calendar stream must be there, and raising cases stay a small minority."""
+    d = stats(cases, obss)
+    probs = []
+    total = len([c for c in cases if c is not None])
+    if total and d["raised"] > 0.6 * total:
+        probs.append(f"{d['raised']} of {total} cases raise")
+    frames = sum(d["index"].values())
+    if frames and (d["raised"] - d.get("malformed_raised", 0)) > 0.05 * frames:
+        probs.append("more than 5 % of the well-formed frames raise")
+    for st in STYPES:
+        if d["stypes"].get(st, 0) == 0:
+            probs.append(f"stype {st} never drawn")
+    for k in ("range", "offset", "perm", "string", "dup"):
+        if d["index"].get(k, 0) == 0:
+            probs.append(f"index labeling {k} never drawn")
+    for k in ("object", "str", "float", "datetime64"):
+        if d["dtypes"].get(k, 0) == 0:
+            probs.append(f"dtype {k} never drawn")
+    for k in ("multicat_sep", "multicat_list", "int_token_columns", "calendar_instants", "malformed"):
+        if d.get(k, 0) == 0:
+            probs.append(f"{k} never drawn")
+    if d["cells"] and not (0.05 < d["missing_cells"] / d["cells"] < 0.6):
+        probs.append("share of missing cells degenerate")
+    return probs
